@@ -108,6 +108,9 @@ func c15Rlpx(r *simrt.Run) {
 						continue
 					}
 					i := f.at - off
+					if i >= len(out) {
+						continue // an earlier fault in the same chunk already shortened it
+					}
 					switch f.kind {
 					case 0:
 						out[i] ^= 1 << uint(f.n%8)
